@@ -97,3 +97,43 @@ def finite(*xs):
         if not np.all(np.isfinite(np.asarray(x, dtype=float))):
             return False
     return True
+
+
+def tetra_quality(simplex):
+    """relative volume |det(edges)| / (longest edge)^3 of a 4x3 simplex; 0.0 when rows are non-finite or
+    coincide. GJK hands EPA a (4,3) array of which only the first n rows are valid when it stopped with
+    fewer than four points (the rest is whatever np.empty left there)."""
+    try:
+        S = np.asarray(simplex, dtype=float)
+        if S.shape != (4, 3) or not np.all(np.isfinite(S)):
+            return 0.0
+        E = S[1:] - S[0]
+        m = float(max(np.linalg.norm(E, axis=1).max(), np.linalg.norm(S[2] - S[1]), np.linalg.norm(S[3] - S[1]),
+                      np.linalg.norm(S[3] - S[2])))
+        if not m > 0:
+            return 0.0
+        return float(abs(np.linalg.det(E / m)))
+    except Exception:  # noqa: BLE001
+        return 0.0
+
+
+def valid_simplex_rows(Y, pa, pb):
+    """number of distinct rows of the returned Minkowski simplex that are support differences p_i - q_i
+    recorded by the proxies during THIS query (needs Counted(..., record=True))."""
+    try:
+        Y = np.asarray(Y, float)
+        if pb is pa:
+            W = np.array(pa.pts[0::2]) - np.array(pa.pts[1::2])
+        else:
+            W = np.array(pa.pts) - np.array(pb.pts)
+        uniq = []
+        for y in Y:
+            if np.all(np.isfinite(y)) and np.any(np.all(W == y, axis=1)) and not any(np.array_equal(y, z) for z in uniq):
+                uniq.append(y)
+        return len(uniq)
+    except Exception:  # noqa: BLE001
+        return -1
+
+
+def simplex_is_tetrahedron(Y, pa, pb, min_quality=1e-9):
+    return valid_simplex_rows(Y, pa, pb) == 4 and tetra_quality(Y) >= min_quality
